@@ -104,6 +104,8 @@ def sort_of(t):
         return union_datatype()
     if k == 'match':
         return z3.IntSort()
+    if k == 'version':
+        return z3.RealSort()
     if k in ('int', 'enum') or is_reflike(t):
         return z3.IntSort()
     if k == 'bool':
